@@ -17,7 +17,8 @@ Stmts == { St("Define", "a", NoName, Sc(5), 0, TRUE),  St("Define", "a", NoName,
            St("Define", "b", NoName, Mat(1, 2), 0, TRUE),
            St("Assign", "a", NoName, Sc(6), 0, FALSE), St("OpAssign", "a", NoName, Undef, 0, FALSE),
            St("IndexAssign", "b", NoName, Undef, 1, FALSE),
-           St("Eval", "a", NoName, Undef, 0, FALSE), St("Eval", "b", NoName, Undef, 0, FALSE) }
+           St("Eval", "a", NoName, Undef, 0, FALSE), St("Eval", "b", NoName, Undef, 0, FALSE),
+           St("FailingCall", "a", NoName, Undef, 0, FALSE) }
 
 Blocks ==    {[b |-> "prose", ns |-> "", st |-> <<>>]}
         \cup {[b |-> "code", ns |-> "", st |-> <<s>>] : s \in Stmts}
